@@ -92,6 +92,10 @@ func verifNewPersonStore() *vPersonStore {
 	s.AddSymbol("o", ast.NodeTypeBool)
 	s.AddSymbol("d", ast.NodeTypeDatetime)
 	s.AddSymbol("n", ast.NodeTypeInt64)
+	// the field s under another symbol name, plain and mapped so that null reads as ""
+	s.AddSymbolWithKey("alias", ast.NodeTypeString, "s")
+	s.AddSymbolWithKey("nn", ast.NodeTypeString, "s")
+	s.MapSymbol("nn", NotNilStringMapper{})
 	s.AddEntitySymbol(NewStringFuncSymbol(s, "xs", func(id string) *string {
 		if s.pop != nil {
 			if e := s.pop.byId(id); e != nil {
@@ -426,6 +430,11 @@ var vSProgs2 = []vSProg{
 	{`xs != null`, "x", func(p *vPop, e *vPerson) bool { return e.XS != nil }},
 	{`xs = null`, "x", func(p *vPop, e *vPerson) bool { return e.XS == nil }},
 	{`xs = ""`, "x", func(p *vPop, e *vPerson) bool { return sEq(e.XS, "") }},
+	{`alias = "x"`, "s", func(p *vPop, e *vPerson) bool { return sEq(e.S, "x") }},
+	{`alias = null`, "s", func(p *vPop, e *vPerson) bool { return e.S == nil }},
+	{`nn = ""`, "s", func(p *vPop, e *vPerson) bool { return e.S == nil || *e.S == "" }},
+	{`nn != null`, "s", func(p *vPop, e *vPerson) bool { return true }},
+	{`nn < "y"`, "s", func(p *vPop, e *vPerson) bool { return e.S == nil || *e.S < "y" }},
 	{`o = true`, "o", func(p *vPop, e *vPerson) bool { return e.O != nil && *e.O }},
 	{`o != true`, "o", func(p *vPop, e *vPerson) bool { return e.O == nil || !*e.O }},
 	{`o != null`, "o", func(p *vPop, e *vPerson) bool { return e.O != nil }},
